@@ -59,7 +59,14 @@ total = fn(l: [int...]) -> int {
 	return l.len()
 }
 type Num int
+g_oint: int? = 5
+g_ostr: str? = "s"
+g_obool: bool? = true
+g_olist: [int...]? = [1, 2]
 """
+# a present optional of the expected type: `T?` where `T` is wanted is a type error in every typed position
+# (the compiler's own hint: "unwrap this optional ... using the `get` keyword"); operator operands are exempt
+OPTIONAL_OF = {"num": "g_oint", "str": "g_ostr", "bool": "g_obool", "list": "g_olist"}
 
 
 class Site:
@@ -96,7 +103,7 @@ class Builder:
 def snippet(b, kinds=None, in_fn_ret=None):
     """append one well-typed snippet with recorded sites"""
     g = b.g
-    choice = g.choice(kinds or ["decl", "reassign", "call", "cond", "index", "oper", "member", "loop", "map", "listel", "alias", "bytearith", "callret"])
+    choice = g.choice(kinds or ["decl", "reassign", "call", "cond", "index", "oper", "member", "loop", "map", "listel", "alias", "bytearith", "callret", "tuple"])
     if choice == "decl":
         t = g.choice(["int", "str", "bool", "list", "float"])
         v = b.name()
@@ -154,7 +161,7 @@ def snippet(b, kinds=None, in_fn_ret=None):
         v = b.name()
         op = g.choice(["-", "*", "/", "<", ">=", "&&", "||"])
         if op in ("&&", "||"):
-            b.add("%s = %s %s %s" % (v, b.site("bool", "true"), op, b.site("bool", "false")))
+            b.add("%s = %s %s %s" % (v, b.site("bool", "true", "operand", op), op, b.site("bool", "false", "operand", op)))
         else:
             b.add("%s = %s %s %s" % (v, b.site("num", "8", "operand", op), op, b.site("num", "2", "operand", op)))
     elif choice == "bytearith":
@@ -187,6 +194,12 @@ def snippet(b, kinds=None, in_fn_ret=None):
     elif choice == "callret":
         v = b.name()
         b.add("%s: int = %s" % (v, b.site("callee", "g_fn", "callee", "(1)")))
+    elif choice == "tuple":
+        v = b.name("t")
+        if g.chance(50):
+            b.add("const %s: [int, str] = %s" % (v, b.site("tuple", "[%s, %s]", "tuple", [("num", "1"), ("str", "\"a\"")])))
+        else:
+            b.add("const %s: [int, str, bool] = %s" % (v, b.site("tuple", "[%s, %s, %s]", "tuple", [("num", "1"), ("str", "\"a\""), ("bool", "true")])))
 
 
 def gen_program(g):
@@ -194,7 +207,7 @@ def gen_program(g):
     main = Builder(g, "main.ms")
     lib = None
     main.add("print \"@START\"")
-    ctxs = [g.choice(["module", "function", "closure", "method", "loop", "elif", "import", "module", "function"]) for _ in range(g.int(2, 5))]
+    ctxs = [g.choice(["module", "function", "closure", "method", "loop", "elif", "import", "module", "function", "branchfn"]) for _ in range(g.int(2, 5))]
     for ci, ctx in enumerate(ctxs):
         n = g.int(1, 3)
         if ctx == "module":
@@ -217,6 +230,46 @@ def gen_program(g):
             main.add("}")
             call = "%s(%s, %s)" if True else ""
             main.add(("r%d = " % ci if ret != "void" else "") + main.site("call", fname + "(%s, %s)", "call", [("num", "1"), ("str", "\"z\"")]))
+        elif ctx == "branchfn":
+            # a value-returning function / method whose returns sit in the arms of if / else-if / else, nothing after
+            shape = g.choice(["ifelse", "ifelifelse", "nested"])
+            method = g.chance(40)
+            fname = main.name("bf")
+            if method:
+                main.add("class Br%d {" % ci)
+                main.indent += 1
+                main.add("fn pick(self, pa: int) -> int {")
+            else:
+                main.add("%s = fn(pa: int) -> int {" % fname)
+            main.indent += 1
+            for _ in range(n - 1):
+                snippet(main, ["decl", "oper", "index", "call", "listel"])
+            R = lambda text: main.add("return %s" % main.site("num", text, "return"))
+            if shape == "ifelse":
+                main.add("if pa > 0 {"); main.indent += 1; R("(pa + 1)"); main.indent -= 1
+                main.add("} else {"); main.indent += 1; R("(pa - 1)"); main.indent -= 1
+                main.add("}")
+            elif shape == "ifelifelse":
+                main.add("if pa > 5 {"); main.indent += 1; R("(pa + 1)"); main.indent -= 1
+                main.add("} else if pa > 0 {"); main.indent += 1; R("(pa * 2)"); main.indent -= 1
+                main.add("} else {"); main.indent += 1; R("0"); main.indent -= 1
+                main.add("}")
+            else:
+                main.add("if pa > 0 {"); main.indent += 1
+                main.add("if pa > 5 {"); main.indent += 1; R("(pa + 1)"); main.indent -= 1
+                main.add("} else {"); main.indent += 1; R("(pa * 2)"); main.indent -= 1
+                main.add("}"); main.indent -= 1
+                main.add("} else {"); main.indent += 1; R("0"); main.indent -= 1
+                main.add("}")
+            main.indent -= 1
+            main.add("}")
+            if method:
+                main.indent -= 1
+                main.add("}")
+                main.add("b%d = Br%d()" % (ci, ci))
+                main.add("print b%d.pick(%s)" % (ci, main.site("num", "3")))
+            else:
+                main.add("print %s(%s)" % (fname, main.site("num", "3")))
         elif ctx == "closure":
             fname = main.name("mk")
             main.add("%s = fn(seed: int) -> fn() -> int {" % fname)
@@ -293,7 +346,7 @@ PLACE = re.compile(r"\{((?:main|lib)\.ms#\d+)\}")
 
 
 def good_text(site):
-    if site.kind == "call":
+    if site.kind in ("call", "tuple"):
         return site.good % tuple(v for _, v in site.extra)
     if site.kind == "callee":
         return site.good + site.extra
@@ -330,8 +383,11 @@ def faults(site):
                 continue          # str * int and list * int are documented (repetition)
             out.append(("wrong-family:" + w, w))
         out.append(("undeclared-name", "undeclared_zz"))
+        if k != "operand" and fam in OPTIONAL_OF:
+            out.append(("optional-of-expected:" + OPTIONAL_OF[fam], OPTIONAL_OF[fam]))
         if k == "return":
             out.append(("bare-return", ""))
+            out.append(("missing-return", None))               # handled specially: the return statement becomes a print
         if k == "index":
             out += [("index-str", "\"0\""), ("index-bool", "true")]
     elif k == "operand-with-byte":
@@ -349,29 +405,59 @@ def faults(site):
         out += [("call-of-int", "(g_obj.n)" + site.extra), ("call-of-str", "\"f\"" + site.extra), ("call-of-list", "g_list" + site.extra), ("undeclared-name", "undeclared_zz" + site.extra)]
     elif k == "voidreturn":
         out.append(("value-in-void-function", None))       # handled specially: replace the statement
+    elif k == "tuple":
+        args = site.extra
+        vals = [v for _, v in args]
+        for i, (fam, v) in enumerate(args):
+            m = list(vals)
+            m[i] = WRONG[fam][0]
+            out.append(("wrong-element-%d:%s" % (i, m[i]), site.good % tuple(m)))
+        out.append(("one-element-more", "[" + ", ".join(vals + ["7"]) + "]"))
+        out.append(("one-element-fewer", "[" + ", ".join(vals[:-1]) + "]"))
     elif k == "call":
         args = site.extra
         vals = [v for _, v in args]
         for i, (fam, v) in enumerate(args):
-            for w in WRONG[fam][:3]:
+            for w in WRONG[fam][:3] + ([OPTIONAL_OF[fam]] if fam in OPTIONAL_OF else []):
                 m = list(vals)
                 m[i] = w
-                out.append(("wrong-arg-%d:%s" % (i, w), site.good % tuple(m)))
+                out.append((("optional-arg-%d:%s" if w.startswith("g_o") and w != "g_obj" else "wrong-arg-%d:%s") % (i, w), site.good % tuple(m)))
         out.append(("one-arg-more", site.good.replace("%s)", "%s, 1)") % tuple(vals) if vals else None))
         fewer = site.good
         if len(vals) >= 1:
             name = site.good.split("(")[0]
             out.append(("one-arg-fewer", "%s(%s)" % (name, ", ".join(vals[:-1]))))
-    return [(n, t) for n, t in out if t is not None or n == "value-in-void-function"]
+    return [(n, t) for n, t in out if t is not None or n in ("value-in-void-function", "missing-return")]
 
 
-def make_scenario(files, where, control=False):
+def enclosing_fn_span(lines, ln):
+    """(first, last) line numbers of the innermost function / method whose body holds line ln (1-based)"""
+    ind = lambda l: len(l) - len(l.lstrip("\t"))
+    i = ln - 1
+    cur = ind(lines[i])
+    h = i - 1
+    while h >= 0:
+        l = lines[h]
+        if l.strip() and ind(l) < cur:
+            cur = ind(l)
+            if re.search(r"\bfn\b.*\{\s*$", l):
+                break
+        h -= 1
+    e = ln
+    while e < len(lines) and not (lines[e].startswith("\t" * cur + "}") and ind(lines[e]) == cur):
+        e += 1
+    return (h + 1, e + 1)
+
+
+def make_scenario(files, where, control=False, span=None):
     sc = {"files": {"p/q/r/" + k: v for k, v in files.items()}, "cwd": "p/q/r",
           "steps": [{"id": "run", "argv": ["mscript", "run", "main.ms", "-q"]}]}
     if control:
         sc["asserts"] = [{"kind": "exit", "step": "run", "in": ["ok"]}, {"kind": "stdout_has", "step": "run", "value": "@END"}]
     else:
         sc["asserts"] = [{"kind": "c03_rejected", "step": "run", "file": where[0], "line": where[1]}]
+        if span:          # a missing return is a property of the function: any line of the enclosing function is a right position
+            sc["asserts"][0].update(line_lo=span[0], line_hi=span[1])
     return sc
 
 
@@ -389,7 +475,7 @@ def a_rejected(a, res, ctx):
     if r.klass == "error" and "Did not compile" in r.stderr:
         if not locs:
             out.append("position: no `--> file:line:col` diagnostic printed")
-        elif not any(f == a["file"] and int(l) == a["line"] for f, l, c in locs):
+        elif not any(f == a["file"] and a.get("line_lo", a["line"]) <= int(l) <= a.get("line_hi", a["line"]) for f, l, c in locs):
             out.append("position: diagnostics name %s, the mutated statement is %s:%d" % (sorted(set("%s:%s" % (f, l) for f, l, c in locs))[:4], a["file"], a["line"]))
     return out or None
 
@@ -409,12 +495,20 @@ def check(case):
     failure = None
     for s in sites:
         for fname, repl in faults(s):
+            span = None
             if fname == "value-in-void-function":
                 mut, where = render(files, sites, (s.sid, good_text(s)))
                 f, ln = where
                 lines = mut[f].split("\n")
                 lines[ln - 1] = lines[ln - 1].replace("print ", "return ", 1)
                 mut[f] = "\n".join(lines)
+            elif fname == "missing-return":
+                mut, where = render(files, sites, (s.sid, good_text(s)))
+                f, ln = where
+                lines = mut[f].split("\n")
+                lines[ln - 1] = lines[ln - 1].replace("return ", "print ", 1)
+                mut[f] = "\n".join(lines)
+                span = enclosing_fn_span(lines, ln)
             else:
                 mut, where = render(files, sites, (s.sid, repl))
             if fname == "bare-return":
@@ -428,8 +522,10 @@ def check(case):
             if nested:
                 nt.append(base["main.ms"] + key)
             labels.append("fault=" + fname.split(":")[0])
-            sc = make_scenario(mut, where)
+            sc = make_scenario(mut, where, span=span)
             res, fails, _ = scenario.execute(sc)
+            if fails and os.environ.get("MSV_SURVEY"):
+                labels.append("FAIL=%s %s | %s" % (s.kind, fname, "; ".join(x.split(":")[0] for x in fails)))
             if fails and failure is None:
                 syms = sorted(set(x.split(":")[0] for x in fails[0].split("; ")))
                 line_text = mut[where[0]].split("\n")[where[1] - 1].strip()
